@@ -103,6 +103,15 @@ def build_checked(h, p, part):
 _PTS = {}
 
 
+def _caller_edits_its_graphs():
+    from . import gen
+    try:
+        gen.edit_library_graphs()
+        gen.edit_cli_graphs()
+    except Exception:  # noqa: the edits are the caller's business; a failure here is not a verdict on the generator
+        pass
+
+
 def _other_points(h, p):
     pts = _PTS.get(h.name)
     if pts is None:
@@ -145,6 +154,8 @@ def check_point(h, p, alg, part):
                 h.build(q)
             except Exception:  # noqa
                 pass
+        # ... and after the caller has edited, in place, graph objects it obtained from the library's public constructors
+        _caller_edits_its_graphs()
         try:
             F3 = h.build(p)
             same = (F3.number_of_variables() == n and rows_of(F3) == rows and
@@ -154,7 +165,7 @@ def check_point(h, p, alg, part):
         part.counts['rebuilt_after_other_calls'] += 1
         if not same:
             part.case(h.name, 'call_after_other_calls_differs', dict(p, _after=qs),
-                      'the generator gives a different formula for the same arguments once it has been called with other arguments')
+                      'the generator gives a different formula for the same arguments once it has been called with other arguments and the caller has edited graph objects of its own (obtained from the public constructors)')
             return
     bad = [l for l in literals_of(F) if not isinstance(l, int) or isinstance(l, bool) or l == 0 or abs(l) > n]
     if bad:
@@ -449,6 +460,7 @@ def _replay_once(case):
                 h.build(q)
             except Exception:  # noqa
                 pass
+        _caller_edits_its_graphs()
         F3 = h.build(p)
         diff = not (F3.number_of_variables() == n and rows_of(F3) == rows and list(F3.all_variable_labels()) == list(F.all_variable_labels()))
         return diff, 'first call and the call after %d other calls differ: %s' % (len(inp['_after']), diff)
